@@ -200,6 +200,21 @@ pub fn gen(tier: &str, seed: u64, out: &mut dyn FnMut(Value)) {
         }
         out(cond_case(spaced(&t2, &mut rng), "cond one-token mutation"));
     }
+    // long texts: a literal of thousands of characters, a condition of hundreds of operands or parentheses - as much in
+    // the grammar as short ones, and parsed after other texts have been parsed in the same process
+    for n in [1000usize, 3400, 5000, 20000] {
+        let lit: String = (0..n).map(|i| (b'a' + (i % 26) as u8) as char).collect();
+        out(match_case(format!(".x == '{lit}'"), "long literal"));
+        out(match_case(format!(".x ~= '({})'", (0..n / 8).map(|i| format!("ioc{i:04}")).collect::<Vec<_>>().join("|")), "long literal"));
+    }
+    for n in [100usize, 300, 560] {
+        out(cond_case((0..n).map(|i| format!("$a{}", i % 7)).collect::<Vec<_>>().join(" and "), "long condition"));
+        out(cond_case((0..n).map(|i| format!("$a{}", i % 7)).collect::<Vec<_>>().join(" or "), "long condition"));
+    }
+    for n in [50usize, 150, 230, 300] {
+        out(cond_case(format!("{}$a{}", "(".repeat(n), ")".repeat(n)), "deeply nested condition"));
+        out(cond_case(format!("{}$a{}", "not ".repeat(n), ""), "deeply nested condition"));
+    }
     // --- whole rules: every operand's text is read in full whether or not the condition ever looks at that operand
     {
         let texts = [
